@@ -481,7 +481,7 @@ Definition call_once_code (o mx : nat) (body : code -> code) (kont : code) : cod
         | _ =>
           atomic_b (fun e st => match once_flag st o with Some f => Some (e, st, f) | None => None end)
             (fun done => if done then mutex_unlock_code mx kont
-                         else body (atomic_u (fun e st => once_complete e st o) (mutex_unlock_code mx kont)))
+                         else body (Switch (atomic_u (fun e st => once_complete e st o) (mutex_unlock_code mx kont))))
         end)).
 
 (* is_completed (no scheduling point) *)
